@@ -191,7 +191,15 @@ def nat_list(xs):
 def confusable(rng, s):
     """a different string that a cache key normalisation (strip, casefold, drop line breaks / white space, collapse blanks) would identify
     with s; it may well parse differently (white space inside a key makes it malformed, inside an AHB condition part changes the token)"""
-    k = rng.choice(("ws", "ws", "nl", "nl", "case", "edge", "dup", "zero", "zero"))
+    k = rng.choice(("ws", "ws", "nl", "nl", "case", "edge", "dup", "zero", "zero", "fold"))
+    if k == "fold":
+        # another string with the same FULL case folding (str.casefold): the sharp s for ss, the long s, the Kelvin sign -- not what the grammar's /i identifies
+        cands = [(m.start(), len(a), b) for a, bs in (("ss", "ßẞ"), ("SS", "ßẞ"), ("Ss", "ß"), ("s", "ſ"), ("S", "ſ"), ("k", "\u212a"), ("K", "\u212a"))
+                 for m in __import__("re").finditer(a, s) for b in bs]
+        if cands:
+            i, n_, b = rng.choice(cands)
+            return s[:i] + b + s[i + n_:]
+        k = "case"
     if k == "zero":
         # the same number in another spelling: [7] / [07] / [007] are different strings with different trees (the token keeps its text)
         import re
@@ -718,6 +726,10 @@ def fixed_witnesses(ctx, im):
     for s1 in ("[1]U[2]", "Muss [1]", "U"):
         for a, b in (("cond", "ahb"), ("ahb", "cond")):
             hists.append((f"witness|{a}-then-{b}|{s1}", [["parse", a, s1, 0], ["parse", b, s1, 1], ["parse", a, s1, 2]]))
+    # a malformed string first, then well-formed ones that a normalisation of the text (case folding, white space) would identify with it
+    for p, bad, goods in (("ahb", "Muß [1]", ("Muss [1]", "MUSS [1]", "muss [1]")), ("ahb", "MUẞ[2]U[3]", ("MUSS[2]U[3]", "muss[2]u[3]")), ("ahb", "Muss [1] ?", ("Muss [1]", "Muss [1] ")),
+                          ("cond", "[1]U [2", ("[1]U [2]", "[1]u [2]")), ("ahb", "ſoll [7]", ("Soll [7]", "soll [7]", "SOLL [7]"))):
+        hists.append((f"witness|{p}|after-malformed|{bad}", [["parse", p, bad, 0]] + [["parse", p, g, i + 1] for i, g in enumerate(goods)]))
     n, failing, reported = 0, [], set()
     for key, h in hists:
         rep = execute(im, h)
@@ -725,11 +737,12 @@ def fixed_witnesses(ctx, im):
         bad = first_failure(rep)
         if bad is not None:
             failing.append(key)
-            cat = (h[0][1], "then" in key.split("|")[1])
+            cat = (h[0][1], "then" in key.split("|")[1], "after-malformed" in key)
             if cat not in reported:  # one replay per parser and kind; the others are listed in the evidence
                 reported.add(cat)
                 ctx.fail(key, {"history": h}, show(bad["expected"]), show(bad["observed"]),
                          "fixed history: the same string given to both parsers in consecutive calls" if cat[1] else
+                         "fixed history: a malformed string, then well-formed strings that only differ from it in case / folding / white space" if cat[2] else
                          "fixed witness of C11_refuted_when_shallow: parse; edit the returned tree; parse the same string again")
     ctx.notes["fixed_witnesses_failing"] = failing
     return n
